@@ -5,7 +5,9 @@ from __future__ import annotations
 
 from typing import Optional
 
-from ..common import Check
+import json
+
+from ..common import CORPUS, Check
 from ..lockstep import Case, lockstep
 
 META = {
@@ -27,7 +29,8 @@ META = {
     "settled change, processes settling before testbenches, delay(0) ordering the re-enable after the other testbenches "
     "of the instant, _freeze being set before any testbench runs) lives in the simulator runtime and is NOT modelled; "
     "the model takes the resulting event order as input and the correspondence exercises it (both testbench orders, "
-    "five mock delays, mid-cycle changes of readiness/arguments). validate_arguments_process and multi-method "
+    "five mock delays all shorter than the clock period, mid-cycle changes of readiness/arguments; a delay of a full "
+    "period or more is outside the model). validate_arguments_process and multi-method "
     "CallTrigger / until_all_done are not modelled. trusted: Lean kernel (propext, Classical.choice, Quot.sound), "
     "pysim, harness glue.",
 }
@@ -373,7 +376,12 @@ def run(ctx: Check):
     )
     ctx.proof_stage()
     rng = ctx.rng("gen")
-    cases = directed()
+    cases = []
+    cdir = CORPUS / "C43"
+    for fn in sorted(cdir.glob("*.json")) if cdir.exists() else []:
+        b = json.loads(fn.read_text())
+        cases.append(Case(b["cfg"], list(b["ops"]), b["desc"], "corpus"))
+    cases += directed()
     n = ctx.pick(110, 2500)
     for i in range(n):
         cases.append(gen_cmd(rng, rng.randint(12, 40)) if i % 2 == 0 else gen_raw(rng, rng.randint(8, 30)))
@@ -383,6 +391,8 @@ def run(ctx: Check):
         ctx.count(f"mock_first_{c.desc['mock_first']}")
 
     def nontrivial(case, out):
+        if out[0] != "ok":
+            return False
         if case.desc["mode"] == "cmd":
             waited = False
             prev_wait = False
